@@ -173,13 +173,19 @@ def make_app(ctx):
 
         def tev(self, i):
             ctx.log.append([5, i, ctx.now])
+            if ctx.after_end:
+                return
             of = case['onfire']
             run_ops(ctx, of[i] if i < len(of) else [])
 
         def opev(self, k):
+            if ctx.after_end:
+                return
             run_ops(ctx, case['ops'][k] if k < len(case['ops']) else [])
 
         def taskev(self, k):
+            if ctx.after_end:
+                return
             for st in (case['gs'][k] if k < len(case['gs']) else []):
                 if st[0] == 'ops':
                     run_ops(ctx, st[1])
@@ -216,6 +222,7 @@ def run_case(case):
         # drain (not part of the compared run): lets pending unregistrations finish and shows which timer events
         # were fired by the last iteration
         app._running = False
+        ctx.after_end = True
         ctx.stims = []
         for _ in range(12):
             if not len(app):
@@ -386,15 +393,16 @@ class C09(Prop):
         self._side = {}
 
     # ---- generator
-    def gen_ops(self, rng, nt, nops, depth=0):
+    def gen_ops(self, rng, nt, nops, lo=0, persist_ok=True):
+        # `fire` only targets later scripts (no event storms); handlers of timer events create one-shot timers only
         ops = []
         for _ in range(rng.randint(0, 3)):
             r = rng.random()
             if r < 0.30:
-                ops.append(['create', rng.choice(GRID), rng.random() < 0.5])
+                ops.append(['create', rng.choice(GRID), persist_ok and rng.random() < 0.5])
             elif r < 0.36:
                 ops.append(['create_at', T0 + rng.choice([0, 300, 1023, 1024, 1500, 2047, 2048, 2500, 3100]) - rng.choice([0, 0, 2000]),
-                            rng.random() < 0.2])
+                            persist_ok and rng.random() < 0.2])
             elif r < 0.50:
                 ops.append(['reset', rng.randrange(nt)])
             elif r < 0.58:
@@ -403,8 +411,8 @@ class C09(Prop):
                 ops.append(['unreg', rng.randrange(nt)])
             elif r < 0.92:
                 ops.append(['work', rng.choice([0, 1, 2, 5, 64, 100, 300, 700, 1100])])
-            elif nops:
-                ops.append(['fire', rng.randrange(nops)])
+            elif lo < nops:
+                ops.append(['fire', rng.randrange(lo, nops)])
         return ops
 
     def generate(self, rng, n, tier):
@@ -412,10 +420,10 @@ class C09(Prop):
         for _ in range(n):
             nt = rng.randint(1, 5)
             nops = rng.randint(1, 5)
-            ops = [self.gen_ops(rng, nt, nops) for _ in range(nops)]
+            ops = [self.gen_ops(rng, nt, nops, lo=k + 1) for k in range(nops)]
             # script 0 runs at the start: mostly creations
             ops[0] = [['create', rng.choice(GRID), rng.random() < 0.5] for _ in range(rng.randint(1, 3))] + ops[0]
-            onfire = [self.gen_ops(rng, nt, nops) if rng.random() < 0.4 else [] for _ in range(nt + 2)]
+            onfire = [self.gen_ops(rng, nt, nops, persist_ok=False) if rng.random() < 0.4 else [] for _ in range(nt + 2)]
             gs = []
             stims = [[T0, 0, 0]]
             if rng.random() < 0.45:
